@@ -40,7 +40,9 @@ RAW = [(" +", [" ", "   "]), ("[ ]?", ["", " "]), ("(?:ab|cd)", ["ab", "cd"]), (
        ("(?:-|_)", ["-", "_"]), ("a?", ["", "a"])]
 REGEX_ARGS = [("[a-z]+", ["abc", "q"]), ("[0-9]{2,4}", ["12", "1234"]), ("[A-Za-z0-9_-]+", ["a-b_1", "Z"]),
               ("(?:a|bc)", ["a", "bc"]), ("[^,]*", ["", "x y"]), ("x?y", ["y", "xy"]), (".+?", ["a", "ab"]),
-              ("[.]", ["."]), ("(?:ab)+", ["abab", "ab"]), (".*", ["", "any\nthing"])]
+              ("[.]", ["."]), ("(?:ab)+", ["abab", "ab"]), (".*", ["", "any\nthing"]),
+              # top-level alternation: the matcher must stay one atom inside the rule
+              ("a|bc", ["a", "bc"]), ("GET|POST", ["GET", "POST"]), ("x|", ["x", ""]), ("[0-9]+|-", ["42", "-"])]
 INSTANCES = {
     "word": ["foo", "Bar_1", "x", "123abc", "_", "a1"],
     "notSpace": ["a/b", "x=1", "日本", "foo", "-", "[x]", "é1"],
